@@ -994,6 +994,83 @@ impl PoolCase {
         vec![format!("cycled ok={ok} enobufs={nobufs} tail={tail1} last={last}")]
     }
 
+    /// A fresh `ReadBuf` of this pool used for a read on a descriptor of a SECOND ring that has
+    /// its own pool of the same shape. Group ids are process-wide unique, so the second ring's
+    /// kernel knows no group with this pool's id: ENOBUFS. If it does select a buffer (of the
+    /// OTHER pool), the `ReadBuf` takes the returned id for a buffer of its own pool: two owners.
+    fn do_xring(&mut self) -> Vec<String> {
+        if self.ps * self.bs > (8 << 20) {
+            return vec!["bad-op".into()];
+        }
+        self.feats.push("cross-ring-read".into());
+        let before: Vec<i32> = simk::with_sim(|s| s.rings.keys().copied().collect());
+        let mut ring_b = match Ring::config().with_submission_queue_size(8).build() {
+            Ok(r) => r,
+            Err(e) => return vec![format!("xring setup-failed {e}")],
+        };
+        let sq_b = ring_b.sq();
+        let rfd_b = simk::with_sim(|s| s.rings.keys().copied().find(|k| !before.contains(k)).unwrap());
+        let raw_b = simk::with_ring(rfd_b, |r, _| r.fresh_fd());
+        let fd_b = unsafe { AsyncFd::from_raw_fd(raw_b, sq_b.clone()) };
+        let pool_b = match ReadBufPool::new(sq_b.clone(), self.ps as u16, self.bs as u32) {
+            Ok(p) => p,
+            Err(e) => return vec![format!("xring pool-failed {e}")],
+        };
+        let bgid_b = simk::with_ring(rfd_b, |r, _| r.pbufs.keys().next().copied());
+        let rb = self.pool.as_ref().unwrap().get();
+        let marker: Vec<u8> = (0..self.bs.min(8)).map(|i| 0xC0 | i as u8).collect();
+        let line;
+        {
+            use std::future::Future;
+            let mut fut = Box::pin(fd_b.read(rb));
+            let waker = util::waker(999);
+            let mut cx = Context::from_waker(&waker);
+            let first = util::catch(|| fut.as_mut().poll(&mut cx));
+            let _ = ring_b.poll(Some(Duration::ZERO));
+            let ud = simk::with_ring(rfd_b, |r, _| r.inflight.iter().find(|x| x.sqe.opcode == simk::OP_READ).map(|x| x.sqe.user_data));
+            if let Some(ud) = ud {
+                let mut spec = PostSpec::new(Target::UserData(ud), marker.len() as i32, 0);
+                spec.data = Some(marker.clone());
+                spec.select_buf = true;
+                simk::with_ring(rfd_b, |r, ev| r.post(&spec, ev));
+            }
+            let _ = ring_b.poll(Some(Duration::ZERO));
+            let second = match first {
+                Ok(Poll::Pending) => util::catch(|| fut.as_mut().poll(&mut cx)),
+                other => other,
+            };
+            line = match second {
+                Err(_) => "xring panic".to_string(),
+                Ok(Poll::Pending) => "xring pending".to_string(),
+                Ok(Poll::Ready(Err(e))) => format!("xring err {}", util::errno_name(e.raw_os_error().unwrap_or(0))),
+                Ok(Poll::Ready(Ok(b))) => {
+                    let bytes: &[u8] = &b;
+                    let off = (bytes.as_ptr() as usize).wrapping_sub(self.base);
+                    let inside_own = off < self.ps * self.bs;
+                    let what = format!(
+                        "a read on a descriptor of a second ring with a ReadBuf of this pool (group {}) was served from the second ring's pool (group {:?}); the ReadBuf now claims {} bytes at offset {off} of {} ({}the bytes the kernel delivered)",
+                        self.bgid,
+                        bgid_b,
+                        bytes.len(),
+                        if inside_own { "this pool's memory, a buffer that is still offered to this ring's kernel" } else { "foreign memory" },
+                        if bytes == &marker[..] { "" } else { "NOT " }
+                    );
+                    self.fail("double-owner", what);
+                    let l = format!("xring ok len={}", bytes.len());
+                    std::mem::forget(b); // releasing it would corrupt this pool's ring
+                    l
+                }
+            };
+        }
+        drop(pool_b);
+        std::mem::forget(fd_b);
+        drop(sq_b);
+        drop(ring_b);
+        let _ = util::drain_wakes();
+        let _ = simk::drain_events();
+        vec![line]
+    }
+
     fn do_end(&mut self) -> Vec<String> {
         for i in 0..self.ops.len() {
             if self.ops[i].fut.is_some() {
@@ -1151,6 +1228,7 @@ impl Case for PoolCase {
             if idle { 1 } else { 0 },                                                      // 11 cycle
             if rng.chance(1, 2) { 1 } else { 0 },                                          // 12 ring
             if rng.chance(1, 12) { 2 } else { 0 },                                         // 13 malformed
+            if self.ps * self.bs <= (8 << 20) && rng.chance(1, 10) { 2 } else { 0 },         // 14 xring
         ];
         Some(match rng.weighted(&w) {
             0 => "pool get".into(),
@@ -1207,6 +1285,7 @@ impl Case for PoolCase {
             }
             11 => format!("pool cycle {}", if rng.chance(1, 3) { rng.range(1, (3 * self.ps as u64 + 3).min(150)) } else { rng.range(1, 6) }),
             12 => "pool ring".into(),
+            14 => "pool xring".into(),
             _ => {
                 // malformed stream
                 let i = rng.below(self.ops.len() as u64 + 2);
@@ -1323,6 +1402,7 @@ impl Case for PoolCase {
                 Some(n) if n <= 200_000 => self.do_cycle(n),
                 _ => vec!["bad-op".into()],
             },
+            ["pool", "xring"] => self.do_xring(),
             ["pool", "ring"] => vec![self.show_ring()],
             ["pool", "end"] => self.do_end(),
             _ => vec!["bad-op".into()],
